@@ -47,7 +47,7 @@ end
 /-- before 3.7 the Frame End struct has no column at all, so the real `End` cannot tell how many rows it has:
     canonically it has one (empty) row per frame id -/
 def endRows (g : Game) : Option SCols :=
-  g.frames.fend.map fun c => if g.start.version.gte 3 7 then c else List.replicate g.frames.id.length (some [])
+  g.frames.fend   -- below 3.7 the rows are member-less; there is one per Frame End event (the real struct counts them in its validity bitmap)
 
 def summary (g : Game) : String :=
   let f := g.frames
